@@ -24,7 +24,7 @@ def gen_plan(rng, tier):
     groups = []
     for _ in range(rng.randint(1, 3)):
         nens = rng.choice([1, 1, 2])
-        ens = rng.sample(["A", "B2", "ens_c"], nens)
+        ens = rng.sample(["A", "A2", "B2", "ens_c"], nens)
         chains = []
         for e in ens:
             R = rng.choice([1, 2, 3])
